@@ -264,6 +264,7 @@ func cmdRun(args []string) {
 	fs.IntVar(&cfg.SchedMode, "sched", 0, "0 run-to-block, 1 symbolic scheduler")
 	fs.IntVar(&cfg.CtxBound, "ctx", cfg.CtxBound, "context switch bound")
 	fs.IntVar(&cfg.EnvFires, "envfires", cfg.EnvFires, "environment firings bound")
+	fs.BoolVar(&cfg.Race, "race", false, "happens-before race monitor")
 	fs.IntVar(&cfg.NPBound, "npbound", 0, "bound on free scheduling choices at blocking points")
 	fs.BoolVar(&cfg.EnvLazy, "envlazy", false, "tickers fire only when all goroutines are blocked")
 	models := fs.Bool("models", false, "collect a model per completed path")
